@@ -30,6 +30,8 @@ type stream struct {
 
 	isDetaching bool
 	isAttached  bool
+	// isBlocked is true while a processor waits in blockGet (guarded by mu)
+	isBlocked bool
 
 	first *Event
 	last  *Event
@@ -135,7 +137,9 @@ func (s *stream) blockGet() *Event {
 	for s.first == nil {
 		s.blockTime = time.Now()
 		s.streamer.makeBlocked(s)
+		s.isBlocked = true
 		s.cond.Wait()
+		s.isBlocked = false
 		s.streamer.resetBlocked(s)
 	}
 	event := s.get()
@@ -167,6 +171,12 @@ func (s *stream) tryUnblock() bool {
 	}
 
 	s.mu.Lock()
+	// the heartbeat works on a snapshot of the blocked list: the processor may have left blockGet
+	// (or the stream) meanwhile, and a timeout event put into such a stream is never consumed properly.
+	if !s.isBlocked {
+		s.mu.Unlock()
+		return false
+	}
 	if time.Since(s.blockTime) < s.streamer.eventTimeout {
 		s.mu.Unlock()
 		return false
